@@ -155,6 +155,13 @@ class TapePolicy:
                         chosen.append(op)
                 order = {op["id"]: k for k, op in enumerate(p["operators"])}
                 chosen.sort(key=lambda op: order[op["id"]])
+            if self.multi and len(live) >= 2 and self.nxt(6) == 0:
+                # operators of a second pipeline appended to the same container (the executor allows it)
+                p2, ops2 = live[self.nxt(len(live))]
+                if p2["pipeline_id"] != p["pipeline_id"]:
+                    ready2 = [op for op in ops2 if op["parents_complete"]]
+                    if ready2:
+                        chosen.append(ready2[self.nxt(len(ready2))])
             pools = [k for k, (c, r) in free.items() if c >= 1 and r > 1e-6]
             if not pools:
                 break
@@ -197,7 +204,8 @@ def expected_body(rec, reported_complete):
                 "operators": [opd(o) for o in p.values]}
 
     def cd(c):
-        return {"container_id": c.container_id, "pipeline_id": c.operators[0].pipeline.pipeline_id,
+        pids = {o.pipeline.pipeline_id for o in c.operators}
+        return {"container_id": c.container_id, "pipeline_id": pids.pop() if len(pids) == 1 else "multiple_pipelines",
                 "operator_ids": [str(o.id) for o in c.operators], "cpu": c.assignment.cpu, "ram_gb": c.assignment.ram,
                 "current_memory_gb": c.get_current_memory_usage(), "priority": c.assignment.priority.name}
 
@@ -469,10 +477,12 @@ def run_case(spec):
         nt = len(recA.ticks)
         for pid, ft in finish.items():
             if ft < nt - 1:
+                later_calls = sorted(t for t in called if t > ft)
                 if pid not in ctx["reported"]:
-                    P("C19:completion-not-reported", f"{pid} completed in tick {ft} of {nt} and was never reported complete")
-                elif ctx["reported"][pid] != ft + 1:
-                    P("C19:completion-reported-late", f"{pid} completed in tick {ft}, reported complete in tick {ctx['reported'][pid]}")
+                    if later_calls:
+                        P("C19:completion-not-reported", f"{pid} completed in tick {ft} of {nt} and was never reported complete (calls in ticks {later_calls[:5]})")
+                elif ctx["reported"][pid] != later_calls[0]:
+                    P("C19:completion-reported-late", f"{pid} completed in tick {ft}, first call afterwards in tick {later_calls[0]}, reported complete in tick {ctx['reported'][pid]}")
         for pid in ctx["reported"]:
             if pid not in finish:
                 P("C19:reported-complete-but-unfinished", f"{pid}")
